@@ -1,4 +1,4 @@
-use hashbrown::{HashMap, HashSet};
+use hashbrown::HashMap;
 
 use crate::adt::{AdtMetadata, FieldPosition};
 use crate::evolution::{SerializedEvolutionStep, FIELD_REMOVED};
@@ -41,11 +41,12 @@ impl<'a, 'b, Output: BinaryOutput> AdtSerializer<'a, 'b, Output> {
         let header_names = metadata
             .evolution_steps
             .iter()
-            .map(|evolution| match evolution {
+            .enumerate()
+            .map(|(step, evolution)| match evolution {
                 Evolution::FieldRemoved { name } | Evolution::FieldMadeTransient { name } => {
                     Some(context.state_mut().store_string(name.clone()))
                 }
-                Evolution::FieldMadeOptional { name } if metadata.removed_fields.contains(name) => {
+                Evolution::FieldMadeOptional { name } if metadata.removed_after(step, name) => {
                     Some(context.state_mut().store_string(name.clone()))
                 }
                 _ => None,
@@ -84,10 +85,7 @@ impl<'a, 'b, Output: BinaryOutput> AdtSerializer<'a, 'b, Output> {
 
     pub fn finish(mut self) -> Result<()> {
         if !self.buffers.is_empty() {
-            self.write_evolution_header(
-                &self.metadata.evolution_steps,
-                &self.metadata.removed_fields,
-            )?;
+            self.write_evolution_header(&self.metadata.evolution_steps)?;
             self.write_ordered_chunks()
         } else {
             Ok(())
@@ -119,11 +117,7 @@ impl<'a, 'b, Output: BinaryOutput> AdtSerializer<'a, 'b, Output> {
         }
     }
 
-    fn write_evolution_header(
-        &mut self,
-        evolution_steps: &[Evolution],
-        removed_fields: &HashSet<String>,
-    ) -> Result<()> {
+    fn write_evolution_header(&mut self, evolution_steps: &[Evolution]) -> Result<()> {
         for (v, evolution) in evolution_steps.iter().enumerate() {
             let step = match evolution {
                 Evolution::InitialVersion => {
@@ -135,7 +129,7 @@ impl<'a, 'b, Output: BinaryOutput> AdtSerializer<'a, 'b, Output> {
                     Ok(SerializedEvolutionStep::FieldAddedToNewChunk { size })
                 }
                 Evolution::FieldMadeOptional { name } => {
-                    if removed_fields.contains(name) {
+                    if self.metadata.removed_after(v, name) {
                         Ok(SerializedEvolutionStep::FieldRemoved {
                             field_name: name.clone(),
                         })
